@@ -232,6 +232,89 @@ def server_case(ctx, kind, present, evkind, unrelated, has_method, co, rng,
         d.close()
 
 
+def incremental_case(ctx, side, kind, co, rng, k):
+    """Registrations arrive over time on one server / client, with the same
+    event dispatched in between: after every registration the event goes to
+    the target the precedence table names for what is registered *now*."""
+    import socketio
+    ns = rng.choice(['/', '/a', '/chat'])
+    event = rng.choice(['ev', 'my_event', 'x1'])
+    order = rng.sample([1, 2, 3, 4, 5, 6], rng.randint(2, 6))
+    rec = Rec()
+    w = {'side': side, 'kind': kind, 'event': event, 'namespace': ns,
+         'coroutine': co, 'registration_order': order, 'case_index': k,
+         'part': 'incremental', 'reserved': False, 'unrelated': False}
+    if side == 'server':
+        d = D.make_drive(kind, async_handlers=False, namespaces='*')
+        base_cls = socketio.AsyncNamespace if d.is_async else \
+            socketio.Namespace
+        is_async = d.is_async
+        target = d.sio
+
+        def reg_fn(ev, t, nsp):
+            d.on(ev, rec.fn(t, None), nsp, co)
+        close = d.close
+    else:
+        h = E.make_client(kind, client_kw={'reconnection': False})
+        base_cls = socketio.AsyncClientNamespace if h.is_async else \
+            socketio.ClientNamespace
+        is_async = h.is_async
+        target = h.c
+
+        def reg_fn(ev, t, nsp):
+            h.on(ev, rec.fn(t, None), nsp, co)
+        close = h.close
+    try:
+        if side == 'server':
+            tr = d.open()
+            tr.connect(ns)
+            sid = tr.sids.get(ns)
+            env = d.environs[tr.eio_sid]
+        else:
+            h.api('connect', 'http://x', namespaces=[ns], wait=True)
+            sid = env = None
+        present = set()
+        for step, t in enumerate([None] + order):
+            if t is not None:
+                if t == 1:
+                    reg_fn(event, 1, ns)
+                elif t == 2:
+                    reg_fn('*', 2, ns)
+                elif t == 3:
+                    reg_fn(event, 3, '*')
+                elif t == 4:
+                    reg_fn('*', 4, '*')
+                else:
+                    target.register_namespace(mk_class(
+                        base_cls, rec, t, event, True, is_async, co,
+                        ns if t == 5 else '*', None))
+                present.add(t)
+            del rec.calls[:]
+            args = [step] + gen.gen_args(rng, True, 2, maxn=2)
+            if side == 'server':
+                tr.send_packet(R.EVENT, ns, None, [event] + args)
+                errs = d.errors()
+                base = ['<sid>'] + args
+            else:
+                h.server_send(R.EVENT, ns, None, [event] + args)
+                errs = h.all_errors()
+                base = list(args)
+            w2 = dict(w, present=sorted(present), step=step, args=args,
+                      class_has_method=True)
+            if errs:
+                w2['errors'] = errs
+                ctx.violation(None, '%s raised while routing an event: %s'
+                              % (side, errs[0]['exc']), w2)
+                return
+            want_t, want_args = expected(present, False, base, event, ns)
+            ctx.count('incremental_dispatches')
+            if not judge(ctx, w2, rec, want_t, want_args, True, sid, env):
+                return
+        ctx.case(('incremental', side, kind, co, tuple(order)), None)
+    finally:
+        close()
+
+
 class RefusingScript(E.ServerScript):
     def __init__(self, data):
         super().__init__()
@@ -434,6 +517,18 @@ def run(ctx):
                 return
     ctx.exhaustive = True
     ctx.extra['grid_cases_run'] = done
+    # registrations that arrive over time, the event dispatched in between
+    ctx.require('incremental_dispatches', 100)
+    for j in range(60 if ctx.tier == 'quick' else 600):
+        if j % ctx.nshards != ctx.shard:
+            continue
+        rng = ctx.case_rng(3 * 10 ** 6 + j)
+        side = ('server', 'client')[j % 2]
+        kind = ('sync', 'async')[(j // 2) % 2]
+        incremental_case(ctx, side, kind,
+                         kind == 'async' and (j // 4) % 2 == 0, rng, j)
+        if ctx.too_many_violations():
+            return
     # random extra passes with different names/arguments while time remains
     k = len(combos)
     while not ctx.out_of_time() and ctx.tier == 'thorough':
